@@ -465,6 +465,12 @@ func judgeCutLazy(f file, full func() *modeling.Mesh, k int, label string, o *vh
 		case "equal":
 			o.Class(label + "/ok-equal-full")
 		case "subset":
+			if !strings.HasPrefix(label, "pts") {
+				// PLY, STL and SPZ declare their element counts: fewer elements than declared, without an
+				// error, is a truncated file that was accepted (only the count-less PTS text format and
+				// the record-streamed .splat format may return what is wholly present)
+				return vh.Failf("partial/"+label, "prefix of %d/%d bytes (cut in %s) decodes without error to fewer elements than the header declares", k, len(f.data), region)
+			}
 			o.Class(label + "/ok-value-equal-subset")
 		default:
 			return vh.Failf("fabricated/"+label, "prefix of %d/%d bytes (cut in %s) decodes without error but %s\n%q", k, len(f.data), region, rel, clip(f.data[:k]))
@@ -750,6 +756,68 @@ func TestC14(t *testing.T) {
 	vh.Enumerate(t, vh.Spec[Case]{Name: "stl-count-sweep", Run: runSweep,
 		Key:    func(c Case) string { return fmt.Sprint(c.Kind, c.Count, c.Reader) },
 		Sample: func(c Case) any { return map[string]any{"kind": c.Kind, "count": c.Count, "reader": c.Reader} }}, sweepCases())
+	vh.Enumerate(t, vh.Spec[Case]{Name: "huge-files-cut", Run: runHugeCut, Deadline: 5 * time.Minute,
+		Key: func(c Case) string { return fmt.Sprint(c.Kind, c.Format) }},
+		[]Case{{Kind: "huge-stl"}, {Kind: "huge-ply", Format: 1}, {Kind: "huge-ply", Format: 2}})
+}
+
+// ---------------------------------------------------------------- files beyond 2^20 / 2^21 elements, a few cuts
+
+// runHugeCut: a binary STL of 2^20+3 triangles (52 MB) and binary PLY point clouds of 2^21+8 vertices
+// (25 MB; neither format has trailing framing) decoded at four strict prefixes: each must be an
+// error. Interrupted copies happen to large files first.
+func runHugeCut(c Case, o *vh.Obs) *vh.Failure {
+	var data []byte
+	var dec func([]byte) (*modeling.Mesh, error)
+	var rec, bodyStart int
+	switch c.Kind {
+	case "huge-stl":
+		data, rec, bodyStart = sweepFile(1<<20+3), 50, 84
+		dec = func(b []byte) (*modeling.Mesh, error) { return stl.ReadMesh(bytes.NewReader(b)) }
+	case "huge-ply":
+		n := 1<<21 + 8
+		enc, bo := "binary_little_endian", binary.AppendByteOrder(binary.LittleEndian)
+		if c.Format == 2 {
+			enc, bo = "binary_big_endian", binary.BigEndian
+		}
+		hdr := fmt.Sprintf("ply\nformat %s 1.0\nelement vertex %d\nproperty float x\nproperty float y\nproperty float z\nend_header\n", enc, n)
+		data = make([]byte, 0, len(hdr)+12*n)
+		data = append(data, hdr...)
+		for i := 0; i < n; i++ {
+			for k := 0; k < 3; k++ {
+				data = bo.AppendUint32(data, math.Float32bits(float32(sweepVal(i, k))))
+			}
+		}
+		rec, bodyStart = 12, len(hdr)
+		dec = func(b []byte) (*modeling.Mesh, error) { return ply.ReadMesh(bytes.NewReader(b)) }
+	default:
+		return nil
+	}
+	o.Class("huge-cut/" + c.Kind)
+	o.NonTrivial()
+	l := len(data)
+	cuts := []int{l - 1, l - rec - 3, l / 2, bodyStart + 1000*rec + 5}
+	for _, k := range cuts {
+		r, returned := decodeWatched(dec, data[:k])
+		if !returned {
+			return vh.Failf("hang/"+c.Kind, "decoding the %d-byte prefix of a %d-byte file does not return", k, l)
+		}
+		switch {
+		case r.p != nil:
+			if oracle.PanicKind(r.p) == "crash" {
+				return vh.Failf("panic/"+c.Kind, "prefix of %d/%d bytes: %v", k, l, r.p)
+			}
+		case r.err != nil:
+		default:
+			got := -1
+			if r.m != nil {
+				got = r.m.Indices().Len()
+			}
+			return vh.Failf("partial/"+c.Kind, "prefix of %d/%d bytes decodes without error (a mesh with %d indices); the file declares its element count and has no trailing framing", k, l, got)
+		}
+	}
+	o.Evals(len(cuts))
+	return nil
 }
 
 func FuzzC14(f *testing.F) {
